@@ -215,6 +215,39 @@ def r_bind(c):
                     "the index lambda has an unbound name")
 
 
+def r_sibling(c):
+    """the three index-lowering rules treat integer and slice indices alike"""
+    m = c.model
+    names = ["map_basic_index", "map_contiguous_advanced_index",
+             "map_non_contiguous_advanced_index"]
+    arms = {}
+    for mn in names:
+        r = m.resolve_method(TOIL, mn)
+        if r is None:
+            raise AnalysisError(f"anchor vanished: {mn}")
+        fd = r[1]
+        for iff in ast.walk(fd):
+            if isinstance(iff, ast.If) and isinstance(iff.test, ast.Call) \
+                    and ast.unparse(iff.test.func) == "isinstance" \
+                    and ast.unparse(iff.test.args[0]) == "idx":
+                ty = ast.unparse(iff.test.args[1])
+                arms.setdefault(ty, {})[mn] = (
+                    "\n".join(ast.unparse(s_) for s_ in iff.body), iff)
+    for ty in ("INT_CLASSES", "NormalizedSlice"):
+        impl = arms.get(ty, {})
+        if len(impl) < 3:
+            raise AnalysisError(f"index lowering: arm for {ty} found in {sorted(impl)} only")
+        ref_name = names[0]
+        ref = impl[ref_name][0]
+        for mn in names[1:]:
+            body, node = impl[mn]
+            c.check(body == ref, "R02-SIBLING", f"ToIndexLambdaMixin.{mn}",
+                    f"{ty}-index-handled-like-{ref_name}", m.loc(m.module_of(node), node),
+                    f"the three index-lowering rules are sibling implementations, but "
+                    f"{mn} handles {ty} indices differently from {ref_name} "
+                    f"(`{body[:60]}...` vs `{ref[:60]}...`)")
+
+
 def r_domain(c):
     """string-valued parameters are stored in the normal form the lowering tests"""
     m = c.model
@@ -285,9 +318,9 @@ def r_domain(c):
 
 SPEC = Spec(
     prop="C02",
-    rules=[r_total, r_meta, r_consume, r_bind, r_domain],
+    rules=[r_total, r_meta, r_consume, r_bind, r_sibling, r_domain],
     floors={"R02-TOTAL": 30, "R02-META": 70, "R02-CONSUME": 20, "R02-BIND": 14,
-            "R02-DOMAIN": 3},
+            "R02-DOMAIN": 3, "R02-SIBLING": 4},
     explanation=(
         "R02-TOTAL: every high-level kind (derived from the class table: concrete "
         "array kinds with array-valued operands that are not inputs, index "
@@ -302,7 +335,8 @@ SPEC = Spec(
         "rule puts into the expression is a key of a mapping it builds. R02-DOMAIN: "
         "the order string reshape() stores is the one its check validated "
         "(normalised), and the values lowering distinguishes are the admitted "
-        "ones."),
+        "ones. R02-SIBLING: the three index-lowering rules handle integer and "
+        "slice indices identically (sibling cross-check)."),
     not_decided=(
         "The index arithmetic itself (slice normalisation, reshape stride/modulo, "
         "roll sign, concatenate offsets, advanced-index axis placement): a "
